@@ -1156,10 +1156,10 @@ def check_initial_state(ctx, rep, rid):
     prog, an = ctx.prog, ctx.an
     nw = prog.fn(FW, 'Framework', 'new')
     fa = an.get(nw)
-    names = {}
-    for v in nw.dbg:
-        if not v['p']['pr'] and 1 <= v['p']['l'] <= nw.argc:
-            names[v['name']] = v['p']['l']
+    # positions of the public constructor's parameters (API order), not their names
+    names = {'machines': 1, 'max_padding_frac': 2, 'max_blocking_frac': 3, 'current_time': 4, 'rng': 5}
+    if len(nw.inputs) != 5 or nw.inputs[1] != 'f64' or nw.inputs[2] != 'f64':
+        raise AnchorMissing('Framework::new(machines, f64, f64, current_time, rng) signature')
 
     def par(n):
         i = names.get(n)
